@@ -57,7 +57,7 @@ def queries(tier):
                                  defs=["FAMILY=" + fam, "STREAM=%d" % st] + extra + pd, faults=1, funcs=FUNCS, bounds={"faults_per_call": 1}))
     # call sequences against the reference state machine
     if quick:
-        seqs = [(V4, 1, 4, 0), (V4, 0, 4, 0), (V6, 1, 3, 1)]
+        seqs = [(V4, 1, 4, 0), (V4, 0, 4, 0), (V6, 1, 2, 1), (V6, 0, 3, 1)]
     else:
         seqs = [(V4, 1, 6, 0), (V6, 1, 5, 0), (V4, 0, 6, 0), (V6, 0, 5, 0), (V4, 1, 4, 1), (V6, 0, 4, 1)]
     for fam, st, L, f in seqs:
